@@ -38,6 +38,7 @@ CFG = {
         "Class 'backlog' (C12_Runs.v): for every queue type and every add kind (ordinary, prior, Anyway; control and request level; Push) a backlog of exactly b items, b in {0,1,2,7,8,9,15,16,17,31,32,33,63,64,65,127,128,129,255,256,257,1023,1024,1025}, "
         "built after h in {0,1,3,b/2} items have come and gone (both 'h first' and 'b+h then pop h'), then the add under test (sometimes one more of the other kind, sometimes Close, sometimes at the last slot the bound lets in), then a full drain; plus a shrink path (fill to 1025, drain to 1, refill with prior adds at 14/16/31...). "
         "Quick runs the three largest backlogs with h = 3 only. These histories are emitted run-length encoded (((op, result), n) = n consecutive steps with consecutive items) and judged by EXPANDING them and applying the ordinary accept / holds, so soundness is the sequential simulation theorem; p_backlog_prior / p_backlog_add state the order for every backlog. "
+        "Class 'gated-priority priq.PriQueue' (round 8, harness/cmd/c12/gated.go, deterministic, last class): 0-2 items queued, then Push(A) in a goroutine with A's FIRST GetPriority call held in a gate of the harness; observed through the gate, another goroutine pops the queued items (queue empty) - if those Pops cannot proceed because the callback runs under the queue's mutex (unchanged code, non-empty queue) the gate opens after 150 ms and the member is an ordinary legal history; after Push(A) returned 1-2 more items (equal / higher priority) are pushed and all popped; mirror members without the intermediate Pops and on an empty queue (30 members); judged by the same CParPri / pp_holds clauses (A's Push returned before B's was invoked => A before B in every linearisation). "
         "A held add-anyway released by Close is, when the next call is a PopAnyway, joined only after that pop (asleep across Close and the freed slot: it must still be refused). "
         "Watchdog: 30 s; after a first call of the run has really not returned (the run is then a violation anyway) later waits are cut to 2 s. A history also stops when a pop hands out something that was not pending. "
         "Boundary item values: a quarter of the random histories of the pipe queues and mq.MQ queue nil, a typed nil pointer, the empty string, int(0) and struct{}{} (written -1..-5) like any other item - the unchanged code stores and returns them unchanged; "
@@ -56,7 +57,7 @@ CFG = {
         "one case = one sequential history of calls on a freshly constructed queue (one of pipe/q.Q, pipe/async.Q, pipe/mux.Q, pipe/mq.MQ, "
         "queue/syncq.SyncQueue, queue/priq.PriQueue) with the result of every call; a case is non-trivial when at least one item was handed out or "
         "at least one add was refused (full / closed); distinct = distinct Coq case term (configuration + calls + results). "
-        "Constructor class: one case = one group of queues with the per-queue histories. Parallel PriQueue class: one case = one round (calls, results, tick ranks). "
+        "Constructor class: one case = one group of queues with the per-queue histories. Parallel PriQueue class: one case = one round (calls, results, tick ranks). Gated-priority PriQueue class: one case = one member (main sequence + the gated Push + the Pops beside it, results, tick ranks). "
         "Concurrent class: one case = one distinct round of 'add versus close' (1-3 adder goroutines x 1-3 adds, one goroutine Close + drain, final drain at quiescence; results with invocation/response ticks of one atomic counter replaced by ranks); "
         "identical rounds are evaluated once (rounds run / distinct / evaluated are in harness_meta.race_add_vs_close); at most 600 distinct ordinary rounds per queue type are evaluated in Coq (6000 thorough) plus EVERY round in which the harness found no witness or an item after closed-and-empty"
     ),
